@@ -14,7 +14,9 @@ Oracle (per control combination c and metric, V = the non-NaN cells of the strat
   ratio(between) = min V / max V, ratio(to_overall) = min_v min(r, 1/r) with r = v/o (r = 0 -> 0),
   errors='raise' == errors='coerce'; difference >= 0; ratio <= 1; ratio >= 0 if V >= 0 (and o > 0); between <= 2 * to_overall.
   In the MetricFrame scopes V and o are read from the frame's own by_group / overall (C01 is about those), never recomputed by fairlearn calls.
-  Left to the code (statement undefined): strata without any non-empty group, max V = 0 for ratio(between), o = 0 or NaN for the to_overall forms.
+  Zero denominator of ratio(between): max V = 0 gives the floating-point quotient (0/0 = NaN, negative/0 = -inf).  Cells equal to +inf (family
+  infinite_cells: non-negative cells, finite positive overall) follow the IEEE rules (inf - inf = NaN, finite/inf = 0, min(r, 1/r) = 0 for r = inf).
+  Left to the code (statement undefined): strata without any non-empty group, o = 0 or NaN for the to_overall forms.
   Known finding D13 (key C02:ratio:negative-values) is reported only when (a) all of V is negative and ratio(between) = min/max > 1 or
   (b) some r < 0 and ratio(to_overall) equals min over ratio_sub_one(r) with ratio_sub_one(r) = r for r < 0; every other mismatch gets its own key.
 NOT checked: non-scalar cells (errors='coerce' vs 'raise' differ there by design), bootstrap (_ci) variants, invalid method/errors strings,
@@ -96,18 +98,30 @@ def check_tables(bg, ov, nc, names, agg, weighted_mean=False):
     for (k, nm), v in bg.items():
         strata.setdefault((k[:nc], nm), []).append(v)
     for (ck, nm), cells in sorted(strata.items(), key=repr):
-        V = [S.F(v) for v in cells if v == v]
-        if not V:
+        Vf = [v for v in cells if v == v]
+        if not Vf:
             continue
         o = ov.get((ck, nm), NAN)
-        lo, hi = min(V), max(V)
         o_ok = o == o and not math.isinf(o)
-        oF = S.F(o) if o_ok else None
         where = f"stratum {ck} metric {nm}: cells {cells} overall {o}"
-        exp = {("group_min", None): lo, ("group_max", None): hi, ("difference", "between_groups"): hi - lo,
-               ("difference", "to_overall"): max(abs(v - oF) for v in V) if o_ok else None,
-               ("ratio", "between_groups"): lo / hi if hi != 0 else None,
-               ("ratio", "to_overall"): min(sub_one(v / oF, True) for v in V) if o_ok and oF != 0 else None}
+        if any(math.isinf(v) for v in Vf):
+            # a metric may return +inf (e.g. odds of a group in which everybody is selected): the formulas are then the IEEE ones (inf - inf = NaN,
+            # finite / inf = 0, 1 / inf = 0); this family only has non-negative cells and a finite positive overall
+            V, oF = Vf, (float(o) if o_ok else None)
+            lo, hi = min(V), max(V)
+            exp = {("group_min", None): lo, ("group_max", None): hi, ("difference", "between_groups"): (hi - lo) if not (math.isinf(lo) and math.isinf(hi)) else NAN,
+                   ("difference", "to_overall"): max(abs(v - oF) for v in V) if o_ok else None,
+                   ("ratio", "between_groups"): (NAN if math.isinf(lo) else 0.0) if math.isinf(hi) else lo / hi,
+                   ("ratio", "to_overall"): min((0.0 if math.isinf(v) else sub_one(v / oF, True)) for v in V) if o_ok and oF > 0 else None}
+        else:
+            V = [S.F(v) for v in Vf]
+            lo, hi = min(V), max(V)
+            oF = S.F(o) if o_ok else None
+            # zero denominator (quantifier: "including zero denominators"): group_min / group_max is the floating-point quotient, 0/0 = NaN, negative/0 = -inf
+            exp = {("group_min", None): lo, ("group_max", None): hi, ("difference", "between_groups"): hi - lo,
+                   ("difference", "to_overall"): max(abs(v - oF) for v in V) if o_ok else None,
+                   ("ratio", "between_groups"): lo / hi if hi != 0 else (NAN if lo == 0 else -math.inf),
+                   ("ratio", "to_overall"): min(sub_one(v / oF, True) for v in V) if o_ok and oF != 0 else None}
         for e in ("raise", "coerce"):
             got = {}
             for km in KINDS:
@@ -293,6 +307,32 @@ def _lookup_cases(tier, seed):
     return out
 
 
+INF_GRID = (0.5, 1.0, 2.0, math.inf, None)
+
+
+def _inf_cases(tier, seed):
+    """value tables and lookup MetricFrames with +inf cells (non-negative cells, finite positive overall wherever it is free)"""
+    rng = np.random.default_rng(seed + 7)
+    tab, lk = [], []
+    vals, fin = [g for g in INF_GRID if g is not None], [0.5, 1.0, 2.0]
+    while len(lk) < (120 if tier == "quick" else 2000):
+        sens, ctrl = SENS[int(rng.integers(0, len(SENS)))], CTRL[int(rng.integers(0, len(CTRL)))]
+        ng, nst = int(np.prod(sens)), int(np.prod(ctrl)) if ctrl else 1
+        bare = bool(rng.random() < 0.5)
+        empty = rng.random(size=(nst, ng)) < 0.15
+        if empty.all() or (not ctrl and empty[0].all()):
+            continue
+        cells = tuple(tuple(tuple(None if empty[i, j] else vals[int(rng.integers(0, len(vals)))] for j in range(ng)) for i in range(nst))
+                      for _ in range(1 if bare else int(rng.integers(1, 3))))
+        if not any(v is not None and math.isinf(v) for col in cells for st in col for v in st):
+            continue
+        overall = tuple(_overall_for(col, rng, fin) for col in cells)
+        lk.append(("lookup", sens, ctrl, int(rng.integers(0, 2)), cells, overall, bare, int(rng.integers(0, 2))))
+        if not any(all(all(x is None for x in st) for st in col) for col in cells) or ctrl:
+            tab.append(("table", sens, ctrl, int(rng.integers(0, 2)), cells, overall))
+    return tab, lk
+
+
 # ---------------------------------------------------------------------------------------------- end to end, weighted-mean metrics
 def _check_e2e(case):
     import pandas as pd
@@ -356,6 +396,12 @@ def run_bounded(rep):
               rule=f"{len(lk)} seeded MetricFrames (bare callable or dict of 1-3) whose lookup metric returns prescribed cell/overall values; groups with 1-2 "
                    f"rows, empty combinations; public group_min/group_max/difference/ratio checked against the frame's own by_group/overall; {nt}",
               bound="<= 4 groups x <= 4 strata x <= 3 metrics", cases=lk, check_case=_check_lookup, exhaustive=False)
+    itab, ilk = _inf_cases(rep.tier, rep.seed)
+    run_cases(rep, "aggregates_infinite_cells",
+              rule=f"{len(itab)} value tables + {len(ilk)} lookup MetricFrames whose cells come from {{.5,1,2,+inf,empty}} (at least one +inf), overall from "
+                   f"{{.5,1,2}}: the aggregates follow the IEEE rules (an infinite group value is reported, never turned into NaN); {nt}",
+              bound="<= 4 groups x <= 4 strata x <= 2 metrics", cases=itab + ilk,
+              check_case=lambda c: (_check_table if c[0] == "table" else _check_lookup)(c), exhaustive=False)
     e2e = _e2e_cases(rep.tier, rep.seed)
     run_cases(rep, "aggregates_weighted_means_e2e",
               rule=f"{len(e2e)} seeded datasets (n in 2..10, 1-2 sensitive features with 2-3 values, 0-1 control feature, weights None or from "
